@@ -21,7 +21,7 @@ rule of `cola/linalg/trace/diag_trace.py`; `.error _` = the call refuses.
 Hypotheses: `A.wf`, `A.dupSlice = false`, `A.HermOK` (those of C01, `Op.Good`; `dupSlice` is C01's
 recorded clause `sliced-repeated-index`, a hypothesis of `Op.mm_eq`).  The two VALUE defects found while building this check
 (`diag(BlockDiag)` / `diag(Kronecker)` with non-square members returned wrong values) are repaired in
-/repo — the rules now refuse — and are kept below as regression lemmas.
+/repo (bbee7eb) — the rules now refuse — and are kept below as regression lemmas; C08 has no value clause.
 
 Result dtype (round 2): `Op.diagDt A k`, `Op.traceDt A` (Model/DiagTraceDtype.lean) — the dtype of the
 array / NumPy scalar the rules and the probing loop return (`some dt`; `none` = no floating array);
@@ -147,7 +147,8 @@ theorem C08_spec_is_mathlib_diag (D : MatF R) (n : Nat) :
 
 /-! ## regression lemmas for the two repaired defects; the hypotheses are satisfiable -/
 
-/-- **regression (repaired defect `bdiag-nonsquare-block`)**: the square `BlockDiag` of the blocks
+/-- **regression** (defect repaired in /repo bbee7eb; its former clause name `bdiag-nonsquare-block` is no longer a
+clause of any theorem or of the harness): the square `BlockDiag` of the blocks
 `[1 2]` (1×2) and `[3 4]ᵀ` (2×1) represents `[[1,2,0],[0,0,3],[0,0,4]]` with diagonal `[1,0,4]` and
 trace `5`; concatenating the blocks' own diagonals gave `[1,3]` / `4`.  The rule now refuses. -/
 theorem C08_regression_block :
@@ -167,7 +168,8 @@ theorem C08_regression_block :
       List.range_succ]
   · simp [Op.traceSpec, sumTo, Op.den, Op.rows, Op.cols, Op.dotSum, bdiagDen, expandBlocks, blockDiagM]
 
-/-- **regression (repaired defect `kron-nonsquare-factor`)**: the square Kronecker product of
+/-- **regression** (defect repaired in /repo bbee7eb; its former clause name `kron-nonsquare-factor` is no longer a
+clause): the square Kronecker product of
 `[1 2]` (1×2) and `[3 4]ᵀ` (2×1) represents `[[3,6],[4,8]]` with diagonal `[3,8]`; the outer product
 of the factors' own diagonals gave `[3]`.  The rule now refuses. -/
 theorem C08_regression_factor :
